@@ -18,7 +18,7 @@ from hypothesis import strategies as st
 
 from pbt.core import Violation, hyp_run, VERIF_DIR
 from pbt import world as W
-from pbt.node import Node, fresh_dir, make_coin
+from pbt.node import close_leaked_handles, Node, fresh_dir, make_coin
 from pbt.server import Server, ServerDied, ServerStuck, NoConvergence
 from pbt.simloop import run_sim, SimDeadlock, SimTimeout
 
@@ -156,6 +156,7 @@ def _run_case(scratch, case):
     failure = []
     work = os.path.join(scratch, 'c17work')
     os.chdir(VERIF_DIR)
+    close_leaked_handles(os.path.abspath(work))
     shutil.rmtree(work, ignore_errors=True)
     shutil.copytree(base, work)
     saved_best, saved_version = world.best, world.version
